@@ -7,6 +7,7 @@ _FAMILIES = {
     "filter": ["C10"],
     "resp": ["C12"],
     "lease": ["C15"],
+    "cache": ["C05", "C08"],
 }
 
 REGISTRY = {}
